@@ -16,7 +16,7 @@ TRUSTED_BASE = [
     'the stamped hook log of every listener is replayed label by label (hook stamp discipline: recv/ctx_done/sub_closed/sent after, before_cancel/before_close/finished before the operation; '
     'a channel hand-off is placed at the earlier of the sender\'s and the receiver\'s stamp; ctx-done and subscription-closed are inserted as late as possible)',
     'the harness: a forwarding Subscriber (records what is offered to / taken by each listener), a scripted reply Publisher and ReplyPublishErrorHandler, a thin Backend wrapper that remembers the reply channel, '
-    'message.ack/nack hook stamps for the command settlement, a watchdog (20 s, cut short when a goroutine dump shows every unfinished listener parked in a channel send)',
+    'message.ack/nack hook stamps for the command settlement, a watchdog (20 s, cut short after 1.5 s when two goroutine dumps show every unfinished listener goroutine blocked - in a channel send or in a select with no ready case)',
     'the cqrs CommandProcessor is used with AckCommandHandlingErrors = false (as the request-reply documentation demands); the Router\'s settlement is C02\'s [handle]',
 ]
 ASSUMPTIONS = [
@@ -153,7 +153,7 @@ def describe_req(sc, req):
                             waits_for_listener=req['sync'], keeps_reading_after_end=req['drain']),
                 notifications_offered=len(req.get('stream') or []), own_notifications=len(own),
                 replies_read=[kind_name(r) for r in (req.get('got') or [])], left_in_channel=[kind_name(r) for r in (req.get('rest') or [])],
-                channel_closed=req['closed'], hook_calls=req['hooks'], listener_finished=req['done'], listener_parked_in_chan_send=req['parked'],
+                channel_closed=req['closed'], hook_calls=req['hooks'], listener_finished=req['done'], listener_blocked_in_goroutine_dump=req['parked'],
                 schedule=sched, send_error=req.get('send_err'))
 
 def kind_name(r):
@@ -253,9 +253,9 @@ def run_once(ctx, res, seed, n, reqs, tag):
         for i, code in vio.items():
             sc, req, _, big = chunk[i]
             if code & 2 and not code & 1:
-                res.violations.append(dict(signature=SIG_PARKED if (req['parked'] or not req['done']) else 'C18/listener-end-state',
+                res.violations.append(dict(signature=(SIG_PARKED if 'etimeout' not in build_schedule(req)[0] else 'C18/listener-blocked-after-timeout-with-live-caller-context') if (req['parked'] or not req['done']) else 'C18/listener-end-state',
                                            what=('the context of the request ended but its listener never finished: reply channel not closed, OnListenForReplyFinished not run'
-                                                 + (' (goroutine dump: listener parked in a channel send on the full reply channel)' if req['parked'] else '')),
+                                                 + (' (goroutine dump: the listener goroutine is blocked in a channel send / a select with no ready case)' if req['parked'] else '')),
                                            case=describe_req(sc, req)))
             else:
                 res.violations.append(dict(signature='C18/listener-safety', what='listener observation rejected by the acceptor safe_ok (only own replies, in arrival order, with the notification\'s content, '
